@@ -72,6 +72,10 @@ class PandasModel:
             return recv.w(store='fresh', deps=d)
         if name == 'drop':
             return recv.w(store='fresh', deps=d)
+        if name == 'between':
+            lo, hi = self.arg(args, kwargs, 0, 'left'), self.arg(args, kwargs, 1, 'right')
+            inc = self.arg(args, kwargs, 2, 'inclusive')
+            return AV(ty='Series', dtype='bool', deps=d, between=(recv, lo, hi, cval(inc) if inc is not None and has_const(inc) else ('both' if inc is None else None)))
         if name == 'isin':
             return AV(ty='Series', dtype='bool', deps=d)
         if name == 'itertuples':
